@@ -25,6 +25,8 @@ LOC = "crates/syntax/src/parser.rs"
 
 
 def run(F, res, tier):
+    from rules import c05 as _c05ns
+    _c05ns.namespaces(F, res, rule7="N18", rule8="N18")   # an imported constructor stays a value: a type of the same name does not take its place (rename would miss the uses)
     from rules import c14 as _c14u
     _c14u.text_positions_are_counted_in_bytes(F, res, rule="N17", crates=('ide',))   # engine U: rename edits every use: the search range covers the whole file in bytes
     from rules import c05 as _c05s18
